@@ -41,7 +41,9 @@ plan('C09',
          Job(H, 'url_rand', 'asan', quick=300, thorough=10000, shards=(2, 4)),
      ],
      exhaustive={'thorough': True},
-     assumptions=COMMON_ASSUME + ['the per-connection handler of the real HttpServer runs on one end of a socketpair (through the public virtual of SocketServer); a smaller sample through real loopback sockets is part of C10',
+     assumptions=COMMON_ASSUME + [
+         '8% of the well-formed requests carry a #fragment after the target (possibly containing ?, = and &): path and query parameters are the ones in front of it; the cut sweep cuts long streams at every n-th offset and additionally within 3 bytes of every line end; chunked bodies mostly consist of several chunks so that a cut between chunks has delivered a proper prefix',
+         'the per-connection handler of the real HttpServer runs on one end of a socketpair (through the public virtual of SocketServer); a smaller sample through real loopback sockets is part of C10',
                                   'termination is decided logically: after the client closed, a handler thread that is still running and has used > 2 s of CPU is spinning; one that is still blocked after 25 s is a hang '
                                   '(the library\'s own waits are at most 10 s); either ends the harness process for that case',
                                   'well-formed requests follow RFC 7230: optional whitespace after the header colon and at the end of the value, any case for header names; no obs-fold, no trailers, no fragments in the target'])
